@@ -14,6 +14,8 @@ from pyvc import sorts as S
 
 
 def declare(reg):
+    S.declare_record('AbsStr', [('n', 'int'), ('last', 'int')])
+    S.declare_record('PosLine', [('startpos', 'int'), ('lineno', 'int'), ('length', 'int')])
     S.declare_record('TLConfig', [('comments', 'int'), ('eol_comments', 'int')])
     S.declare_record('TLInput', [
         ('ignorecase', 'bool'), ('nameguard', 'bool'), ('_namechar_set', 'strset'),
@@ -85,6 +87,12 @@ def declare(reg):
         'wf': ['self.len == len(self.textstr)', '0 <= self.pos', 'self.pos <= self.len'],
         'isa': ['Cursor'],
     }
+    reg.imports['notnone'] = 'tatsu/util/typetools.py:notnone'
+    reg.classes['LInput'] = {'mro': ['tatsu/input/textlines.py:TextLines'],
+                             'fields': {'line_cache': 'arrlist[PosLine]', 'textlen': 'int'}}
+    reg.classes['LCursor'] = {'mro': ['tatsu/input/textlines.py:TextLinesCursor'], 'fields': {'pos': 'int', '_input': 'LInput'},
+                              'wf': ['0 <= self.pos', 'self.pos <= self._input.textlen',
+                                     'len(self._input.line_cache) == 0 or len(self._input.line_cache) == self._input.textlen + 1']}
     reg.classes['Cursor'] = {
         'mro': ['tatsu/input/textlines.py:TextLinesCursor'],
         'wf': ['self.len == len(self.textstr)', '0 <= self.pos', 'self.pos <= self.len', 'self._namechars == self.input._namechar_set'],
@@ -96,6 +104,7 @@ def declare(reg):
         'mro': ['tatsu/contexts/state.py:ParseState'],
         'isa': ['ParseState'],
     }
+    reg.classes['PosLine'] = {'mro': ['tatsu/input/infos.py:PosLine'], 'isa': ['PosLine']}
     reg.classes['RuleInfoR'] = {'mro': ['tatsu/contexts/infos.py:RuleInfo'], 'isa': ['RuleInfo']}
     reg.classes['MemoKeyR'] = {'mro': ['tatsu/contexts/infos.py:MemoKey'], 'isa': ['MemoKey']}
     reg.classes['RuleResultR'] = {'mro': ['tatsu/contexts/infos.py:RuleResult'], 'isa': ['RuleResult']}
